@@ -1046,6 +1046,12 @@ class Run:
                      "was marked canceled and no scancel was issued for them")
         if complete and results is not None:
             self.check_final_results(results, "C14", expect_ref=False)
+        # "jobs that never ran are reported missing": a canceled submission must still reach completion once nothing is alive
+        if (not complete and self.mode == "cancel" and not self.deadlocked and self.user_trysubmits >= 3 and not self.vc.live()
+                and not any(b["state"] in ("pending", "running") for b in self.vc.slurm.values())):
+            self.bad("C14", "cancel.never_completes", f"the submission is marked canceled, no batch is alive, {self.user_trysubmits} "
+                     "try-submit-jobs ran at quiescence, but it never completes: results.json is never written and the jobs that never "
+                     "ran are never reported missing")
 
     def check_hooks(self, tr, complete):
         sc = self.sc
